@@ -11,6 +11,8 @@ from mc.fakes import FakeResponse, patched_http
 
 ID = 'C26'
 LEVEL = 'fault_enumeration'
+LEVEL_TEXT = ('the retry loop is a finite-state machine over (attempt number, class of the last answer); the complete answer tree up to the attempt '
+              'cap is enumerated, so every reachable behaviour of the loop over the answer alphabet is decided against the statement')
 RULE = ('complete tree of node answers: every sequence over the 17-answer alphabet that the real retry loop can '
         'consume (it asks for another answer or finishes); non-trivial = distinct sequences with >=1 retry-eligible '
         'answer; leaves compared with the statement: #requests, delay list, returned JSON / raised error of the last response')
